@@ -25,7 +25,12 @@ import LenaModel.Model.C17Ext
   {"op":"eqrepr","el":"slice"|"countfrom"|"reverse"|"chain","a":X,"b":X} -> {"eq":b,"repr":[s,s]}   (X: args / [start,step] / null / [[..],..])
   {"op":"init_check","el":"countfrom","num":[b,b]} | {"op":"init_check","el":"chunks","callable":b} -> {"r":"ok"|"TypeError"|"LenaTypeError"}
   {"op":"chunks_c","cs":n,"xs":[..],"container":"tuple"|"list"|"star"|"set"} -> {"r":[{"k":"tuple"|"list"|"set","v":[..]},..]}
-  {"op":"session","el":"chain_shared","xss":[[..],..],"ops":OPS} -> {"ev":..,"all":[allValues],"left":[what the iterators still hold]} -/
+  {"op":"session","el":"chain_shared","xss":[[..],..],"ops":OPS} -> {"ev":..,"all":[allValues],"left":[what the iterators still hold]}
+  {"op":"fill_into_o","args":[i|null,..],"xs":[..]}   (any call form; the None defaults are applied by mkSliceInst)
+        -> {"r":[filled],"stop":i|null,"stopidx":i|null (stopIdx, when stop is a number)} | {"e":"LenaValueError"|"AttributeError"|"TypeError"}
+  {"op":"fill_trace_o","args":[..],"xs":[..]}          -> {"out":[..],"r":[filled]} | {"e":..}
+  {"op":"slice_inst","args":[..],"ops":[..]}           the call-form variant of slice_inst
+  {"op":"slice_step","start":..,"stop":..,"stepkind":"float","ms":n} -> {"e":"LenaValueError"} (mkSliceStepArg) -/
 open Lean Lena.Drv Lena.C17
 
 def outJson : Option (Out Int) → Json
@@ -178,8 +183,45 @@ def handle (j : Json) : Json :=
     | some cs, some xs => Json.mkObj [("r", ofList ofIntList (windows cs xs))]
     | _, _ => err "bad windows args"
   | some "session" => sessionOp j
+  | some "fill_into_o" =>
+    match (arr? (getD j "args")).bind (fun a => a.toList.mapM optInt), intList? (getD j "xs") with
+    | some args, some xs =>
+      match argsTriple args with
+      | none => Json.mkObj [("e", "TypeError")]
+      | some (a, b, s) =>
+        match sliceFillAll a b s xs with
+        | .valueError => Json.mkObj [("e", "LenaValueError")]
+        | .attributeError => Json.mkObj [("e", "AttributeError")]
+        | .filled ys st =>
+          let si : Option Nat := b.map (fun bb => stopIdx (a.getD 0).toNat 0 bb.toNat (s.getD 1).toNat)
+          Json.mkObj [("r", ofIntList ys), ("stop", ofOpt ofNat st), ("stopidx", ofOpt ofNat si)]
+    | _, _ => err "bad fill_into_o args"
+  | some "fill_trace_o" =>
+    match (arr? (getD j "args")).bind (fun a => a.toList.mapM optInt), intList? (getD j "xs") with
+    | some args, some xs =>
+      match argsTriple args with
+      | none => Json.mkObj [("e", "TypeError")]
+      | some (a, b, s) =>
+        match sliceFillTrace a b s xs with
+        | none => Json.mkObj [("e", "LenaValueError")]
+        | some outs => Json.mkObj [("out", ofList fillOutJson outs), ("r", ofIntList (filledOf xs outs))]
+    | _, _ => err "bad fill_trace_o args"
+  | some "slice_step" =>
+    match optInt (getD j "start"), optInt (getD j "stop"), str? (getD j "stepkind"), nat? (getD j "ms") with
+    | some a, some b, some "float", some ms =>
+      match mkSliceStepArg ms a b .float with
+      | .valueError => Json.mkObj [("e", "LenaValueError")]
+      | _ => Json.mkObj [("r", "constructed")]
+    | _, _, _, _ => err "bad slice_step args"
   | some "slice_inst" =>
-    match optInt (getD j "start"), optInt (getD j "stop"), optInt (getD j "step"),
+    let triple : Option (Option Int × Option Int × Option Int) :=
+      match (arr? (getD j "args")).bind (fun a => a.toList.mapM optInt) with
+      | some args => argsTriple args
+      | none =>
+        match optInt (getD j "start"), optInt (getD j "stop"), optInt (getD j "step") with
+        | some a, some b, some s => some (a, b, s)
+        | _, _, _ => none
+    match triple.map (·.1), triple.map (·.2.1), triple.map (·.2.2),
         (arr? (getD j "ops")).bind (fun a => a.toList.mapM sliceOp?) with
     | some a, some b, some s, some ops =>
       match mkSliceInst a b s with
